@@ -24,6 +24,9 @@ type ReadOnlyFS struct {
 
 	pathlock pathlock.Mutex
 	options  ReadOnlyOptions
+
+	// incomplete remembers files whose copy into the cache failed. They are not served from the cache until a later copy succeeds.
+	incomplete sync.Map
 }
 
 // ReadOnlyOptions contain options for creating a ReadOnlyFS
@@ -56,7 +59,7 @@ func (fs *ReadOnlyFS) Open(name string) (hackpadfs.File, error) {
 
 	fs.pathlock.Lock(name)
 	defer fs.pathlock.Unlock(name)
-	{
+	if _, incomplete := fs.incomplete.Load(name); !incomplete {
 		// if file is in cache, return it. continue otherwise
 		f, err := fs.cacheFS.Open(name)
 		if err == nil {
@@ -77,9 +80,13 @@ func (fs *ReadOnlyFS) Open(name string) (hackpadfs.File, error) {
 
 	err = fs.copyFile(name, f, info)
 	if err != nil {
+		// never serve a partially copied file: remove it if possible and remember it is incomplete
+		fs.incomplete.Store(name, true)
+		_ = hackpadfs.Remove(fs.cacheFS, name)
 		_ = f.Close()
 		return nil, err
 	}
+	fs.incomplete.Delete(name)
 	if _, seekErr := hackpadfs.SeekFile(f, 0, io.SeekStart); seekErr != nil {
 		// attempt to seek to first byte. if unsuccessful, re-open file from the cache
 		_ = f.Close()
@@ -88,7 +95,7 @@ func (fs *ReadOnlyFS) Open(name string) (hackpadfs.File, error) {
 	return f, err
 }
 
-func (fs *ReadOnlyFS) copyFile(name string, f hackpadfs.File, info hackpadfs.FileInfo) error {
+func (fs *ReadOnlyFS) copyFile(name string, f hackpadfs.File, info hackpadfs.FileInfo) (returnedErr error) {
 	parentName := path.Dir(name)
 	if err := hackpadfs.MkdirAll(fs.cacheFS, parentName, 0700); err != nil {
 		return &hackpadfs.PathError{Op: "open", Path: parentName, Err: err}
@@ -97,7 +104,13 @@ func (fs *ReadOnlyFS) copyFile(name string, f hackpadfs.File, info hackpadfs.Fil
 	if err != nil {
 		return err
 	}
-	defer func() { _ = destFile.Close() }()
+	defer func() {
+		// a failed close means the data may not have been stored
+		closeErr := destFile.Close()
+		if returnedErr == nil {
+			returnedErr = closeErr
+		}
+	}()
 
 	destFileWriter, ok := destFile.(io.Writer)
 	if !ok {
